@@ -3,6 +3,8 @@ and interpret it. The model is derived from the *source* on every run; nothing o
 
 Extraction fails closed (AnchorLost) on any combinator use it does not understand.
 """
+import re
+
 from . import ast as A
 
 MAX_USIZE = (1 << 64) - 1
@@ -32,7 +34,13 @@ class Extractor:
         self.fns = {fn.name: fn for fn in A.functions(self.f) if "::" not in fn.qual}
         self.rules = {}
         # every free function that is not a combinator is a grammar function (helpers may be added freely)
-        self.grammar_fns = [n for n in self.fns if n not in COMBINATORS]
+        # (a parser returns `Option<..>`; other free functions - slice helpers and the like - are read where they are called)
+        def _is_parser(fn):
+            off = fn.node["sig"]["ident"]["span"][0]
+            header = self.f.src[off : off + 600].split("{")[0]
+            return re.search(r"\)\s*->\s*Option<", header) is not None
+
+        self.grammar_fns = [n for n in self.fns if n not in COMBINATORS and _is_parser(self.fns[n])]
         self.struct_fields = {}
         for it, mods, cfgs in A.iter_items(self.f.ast["items"]):
             if A.kind(it) == "Item::Struct":
@@ -641,6 +649,13 @@ class Extractor:
                 return self.value_expr(fn, v["args"][0])
             if f and ("::" in f or f[0].isupper()):
                 return ("label", f)
+            # a same-file helper whose whole body is the consumed-prefix slice `&a[..(a.len() - b.len())]`
+            h = self.fns.get(f) if f else None
+            if h is not None and h.block is not None and len(h.block["stmts"]) == 1:
+                st = h.block["stmts"][0]
+                e = st.get("0") if A.kind(st) == "Stmt::Expr" else None
+                if e is not None and A.kind(e) == "Expr::Reference" and A.kind(e["expr"]) == "Expr::Index":
+                    return ("capture",)
         if k == "Expr::Tuple":
             return ("tuple", [self.value_expr(fn, x) for x in v["elems"]])
         if k == "Expr::Reference" and A.kind(v["expr"]) == "Expr::Index":
